@@ -503,14 +503,42 @@ def r01_4(prog: Program, rep):
            "sorted_tree_items(self._entries, name_order)" in src and "name_order: bool=False" in src, "", it.node.lineno)
     sti = m.funcs.get("sorted_tree_items")
     src = norm(sti.node, 10000)
-    rep.ob("R01.4", OBJ, "sorted_tree_items", "tree order uses key_entry, name order key_entry_name_order",
-           "key_func = key_entry_name_order" in src and "key_func = key_entry" in src and "sorted(entries.items(), key=key_func)" in src,
-           "", sti.node.lineno)
-    # the if/else must not be swapped: name_order true -> key_entry_name_order
-    for x in ast.walk(sti.node):
-        if isinstance(x, ast.If) and isinstance(x.test, ast.Name) and x.test.id == "name_order":
-            rep.ob("R01.4", OBJ, "sorted_tree_items", "name_order=True selects the plain-name key",
-                   "key_entry_name_order" in norm(x.body[0]) and "key_entry_name_order" not in norm(x.orelse[0]), "", x.lineno)
+    # which key does sorted(...) get when name_order is false / true?  (if/else, conditional expression, either polarity)
+    def key_under(flag: bool):
+        keys = [k.value for c in ast.walk(sti.node) if isinstance(c, ast.Call) and callee_name(c) == "sorted" for k in c.keywords if k.arg == "key"]
+        if len(keys) != 1:
+            return None
+        def pick(e):
+            if isinstance(e, ast.IfExp):
+                t = e.test
+                neg = isinstance(t, ast.UnaryOp) and isinstance(t.op, ast.Not)
+                t = t.operand if neg else t
+                if isinstance(t, ast.Name) and t.id == "name_order":
+                    return pick(e.body if (flag != neg) else e.orelse)
+                return None
+            if isinstance(e, ast.Name):
+                # a local chosen by an if/else on name_order, or assigned once
+                for x in ast.walk(sti.node):
+                    if isinstance(x, ast.If):
+                        t = x.test
+                        neg = isinstance(t, ast.UnaryOp) and isinstance(t.op, ast.Not)
+                        t = t.operand if neg else t
+                        if isinstance(t, ast.Name) and t.id == "name_order":
+                            arm = x.body if (flag != neg) else x.orelse
+                            for st in arm:
+                                if isinstance(st, ast.Assign) and isinstance(st.targets[0], ast.Name) and st.targets[0].id == e.id:
+                                    return pick(st.value)
+                defs = [st.value for st in ast.walk(sti.node) if isinstance(st, ast.Assign) and isinstance(st.targets[0], ast.Name) and st.targets[0].id == e.id]
+                if len(defs) == 1:
+                    return pick(defs[0])
+                return e if not defs else None
+            return e
+        return pick(keys[0])
+    kf, kt = key_under(False), key_under(True)
+    rep.ob("R01.4", OBJ, "sorted_tree_items", "tree order (name_order false) sorts with key_entry, the directory-aware key",
+           isinstance(kf, ast.Name) and kf.id == "key_entry", f"key when name_order is false: {norm(kf) if kf is not None else None}", sti.node.lineno)
+    rep.ob("R01.4", OBJ, "sorted_tree_items", "name_order=True selects a plain-name key",
+           kt is not None and not (isinstance(kt, ast.Name) and kt.id == "key_entry"), f"key when name_order is true: {norm(kt) if kt is not None else None}", sti.node.lineno)
     ke = m.funcs.get("key_entry")
     src = norm(ke.node, 10000)
     rep.ob("R01.4", OBJ, "key_entry", "appends '/' exactly when stat.S_ISDIR(mode)",
